@@ -17,7 +17,7 @@ func init() {
 			"D3 overlap enumeration — the source range is [old.LowerBound(i)·scale, old.LowerBound(i+1)·scale), the target loop starts at new.Index(lower) and continues while new.LowerBound(out) < upper, the weight sent is count·(min(outHi,inHi) − max(outLo,inLo))/(inHi − inLo) and goes to the target store at the loop's own index. "+
 			"D4 no negative weight — on every path reaching the target AddWithCount the overlap size (numerator of the proportion) is established positive or non-negative by a dominating comparison with 0 (or clamped with max(0,·)); count > 0 and inHi − inLo > 0 are axioms (ForEach yields positive weights; LowerBound is increasing and scale > 0). "+
 			"D5 exact statistics are rescaled by the factor — the exact variant's ChangeMapping returns {inner.ChangeMapping(…, scale), a Copy() of the statistics rescaled exactly once by that same scale} and never writes the receiver's statistics; SummaryStatistics.Rescale scales sum and compensation, orders min/max by the sign of the factor and never touches the count (C10-D1/D3 obligations re-evaluated here). "+
-			"SHARED (obligations of other properties that decide clauses this property states too, re-evaluated here under their home rule ids): C19-D2/D3 (Equals of the mappings, on which the identity shortcut rests). "+
+			"SHARED (obligations of other properties that decide clauses this property states too, re-evaluated here under their home rule ids): C19-D2/D3 (Equals of the mappings, on which the identity shortcut rests). C14-D2 (the identity shortcut returns Copy(): every Copy defines every field — bin limits and flags included — and is deep). "+
 			"NOT DECIDED: conservation of total weight up to rounding, the combined accuracy bound, rank distance.",
 		"one obligation per ChangeMapping path, per overlap term, per path reaching the weighted add",
 		false, runC17)
@@ -43,6 +43,8 @@ func runC17(c *Ctx) {
 	c10StatObject(c, a, "C17-D5", "Rescale")
 	// the identity shortcut is taken when the mappings are Equal: "carries the requested mapping" rests on Equals
 	c.shared(func() { c19Equals(c, mappingInfos(c, "C17")) }, func(o *Obligation) bool { return true })
+	// … and returns Copy(): "an exact copy" is the C14-D2 obligation of every Copy in the module (fields, limits, deep)
+	c.shared(func() { c14Copies(c, a) }, func(o *Obligation) bool { return true })
 }
 
 func c17Table(c *Ctx, a *sketchAnchors) {
@@ -395,6 +397,49 @@ func c17Overlap(c *Ctx, a *sketchAnchors) {
 	}
 	c.R.check(badShape == "" && nAdd > 0, rule3, shortFn(cl)+"/overlap-enumeration", shortFn(cl), c.fpos(cl),
 		"out starts at new.Index(lower), loop while new.LowerBound(out) < upper, weight = count·(min(outHi,inHi)−max(outLo,inLo))/(inHi−inLo) added to the target store at out", firstNonEmpty(badShape, fmt.Sprintf("%d add occurrence(s) agree", nAdd)))
+	// the enumeration of target bins ends only through its own continuation test (new.LowerBound(out) < scaled upper
+	// bound): an empty intersection (rounding can make the FIRST target bin miss the source bin) skips that bin and
+	// goes on — leaving the loop there drops the whole weight of the source bin
+	{
+		tcl := newTermCtx(c.P)
+		var addBlk *ssa.BasicBlock
+		for _, b := range cl.Blocks {
+			for _, in := range b.Instrs {
+				if call, ok := in.(*ssa.Call); ok && isMethodCall(tcl.Of(call), "AddWithCount") {
+					addBlk = b
+				}
+			}
+		}
+		badExit := "no loop around the weighted add"
+		for _, l := range naturalLoops(cl) {
+			if addBlk == nil || !l.body[addBlk] {
+				continue
+			}
+			badExit = ""
+			for b := range l.body {
+				iff, ok := b.Instrs[len(b.Instrs)-1].(*ssa.If)
+				if !ok {
+					continue
+				}
+				exits := false
+				for _, sc := range b.Succs {
+					if !l.body[sc] {
+						exits = true
+					}
+				}
+				if !exits {
+					continue
+				}
+				ct := tcl.Of(iff.Cond)
+				mentionsBound := (ct.isBin("<") || ct.isBin("<=")) && (isMethodCall(ct.Args[0], "LowerBound") || isMethodCall(ct.Args[1], "LowerBound"))
+				if !mentionsBound {
+					badExit = "the loop over target bins is left on " + tcl.Of(iff.Cond).Key() + " (not its continuation test)"
+				}
+			}
+		}
+		c.R.check(badExit == "", rule3, shortFn(cl)+"/enumeration-ends-only-at-the-upper-bound", shortFn(cl), c.fpos(cl),
+			"the loop over target bins is left only through new.LowerBound(out) < scaled upper bound; an empty intersection skips one bin and continues", firstNonEmpty(badExit, "ok"))
+	}
 	c.R.check(badSign == "" && nAdd > 0, rule4, shortFn(cl)+"/weight-nonnegative", shortFn(cl), c.fpos(cl),
 		"every weight handed to the target store is provably ≥ 0 (overlap size guarded or clamped; count > 0 and upper−lower > 0 by axiom)", firstNonEmpty(badSign, fmt.Sprintf("%d add occurrence(s) guarded", nAdd)))
 	c.R.assume("sign axioms: weights yielded by Store.ForEach are > 0 (dense/paginated iterators skip non-positive entries; sparse entries are created only by positive adds); old.LowerBound(i+1)·scale − old.LowerBound(i)·scale > 0 (LowerBound increasing, scale > 0 per the property's quantifier)")
